@@ -49,6 +49,12 @@ def validate_all(module, cfg, results, ev, pid, keep=(), xmx="3g", timeout=1500,
         for fu, (jf, tr, n) in futs.items():
             ok, line, r = fu.result()
             ev.tlc(r)
+            import re as _re0
+            for m in _re0.finditer(r'<<"STATS", (\d+), (\d+), <<(\d+), (\d+), (\d+), (\d+)>>', r.out):
+                ev.add("cases_definition_accepts", int(m.group(1)))
+                ev.add("cases_definition_rejects", int(m.group(2)))
+                for i in range(4):
+                    ev.add("accepted_level_%d" % i, int(m.group(3 + i)))
             if ok:
                 good += n
                 continue
@@ -58,7 +64,7 @@ def validate_all(module, cfg, results, ev, pid, keep=(), xmx="3g", timeout=1500,
             if line and line > 0:
                 lines = open(tr).read().splitlines()
                 # find the execution (Reset) the rejected line belongs to
-                start = max(i for i in range(line) if i < len(lines) and lines[i].startswith('{"e":"Reset"')) if lines else 0
+                start = max([i for i in range(line) if i < len(lines) and lines[i].startswith('{"e":"Reset"')] or [max(line - 1, 0)])
                 ctx = "rejected at line %d (execution starting at line %d): %s" % (
                     line, start + 1, lines[line - 1][:700] if line <= len(lines) else "<end of trace>")
                 open(os.path.join(d, "rejected_execution.ndjson"), "w").write("\n".join(lines[start:line]) + "\n")
